@@ -2,4 +2,5 @@
 pub mod bytestream;
 pub mod refparse;
 pub mod rto;
+pub mod sender;
 pub mod seq;
